@@ -600,6 +600,9 @@ def execute_c03(scenario: Dict) -> Dict:
                     verdicts.append(kernel.verdict("C03.R1", f"task {task.tid} of query {task.qi} produced a result the isolated evaluation does not produce: {value}", **features_for(task, "extra")))
                     return
             return
+        if i >= len(ref["results"]) and ref["end"] in ("cap", "fuse"):
+            # the reference was cut off by the harness (result cap / event fuse), not by the engine: nothing to compare with
+            return
         if i >= len(ref["results"]):
             task.diverged = True
             verdicts.append(kernel.verdict("C03.R1", f"task {task.tid} of query {task.qi} produced result #{i} = {value} but the isolated evaluation ends after {len(ref['results'])} results ({ref['end']})", **features_for(task, "extra")))
